@@ -122,9 +122,9 @@ pub mod rand {
     #[verifier::external_body]
     pub fn thread_rng() -> ThreadRng { unimplemented!() }
     pub trait Rng {
-        // `Rng::gen_range` at T = Duration, R = Range<Duration>: "Generate a random value in the given range.
-        // ... Only `gen_range(low..high)` and `gen_range(low..=high)` are supported. Panics if the range is empty."
-        // `low..high` is half-open: low <= value < high.
+        // `Rng::gen_range` (rand 0.8) at T = Duration, R = Range<Duration>, the only instance /repo uses:
+        // "Generate a random value in the given range. ... Only `gen_range(low..high)` and `gen_range(low..=high)`
+        // are supported. Panics if the range is empty." `low..high` is half-open: low <= value < high.
         fn gen_range(&mut self, range: Range<Duration>) -> (r: Duration)
             requires dur_ns(range.start) < dur_ns(range.end)
             ensures dur_ns(range.start) <= dur_ns(r) < dur_ns(range.end);
@@ -138,6 +138,8 @@ pub mod rand {
         pub use super::SliceRandom;
     }
     // `SliceRandom::choose`: "Returns a reference to one random element of the slice, or None if the slice is empty."
+    // rand implements the trait for `[T]`; /repo calls it on a `Vec<A::Random>` through `Deref<Target = [T]>`, whose
+    // elements are the vector's (`elems`), so the stub implements it for `Vec<T>` directly.
     pub trait SliceRandom<T> {
         spec fn elems(&self) -> Seq<T>;
         fn choose<'a, G: Rng>(&'a self, rng: &mut G) -> (r: Option<&'a T>)
